@@ -104,6 +104,17 @@ def run(ctx, driver):
         rec.dist[f"abandon-then-download:{outcome.split(':')[0]}"] += 1
         if outcome != "ok" or got != 1000 or errs:
             rec.fail("C12:stream-starved-by-abandoned-response", {}, {"abandoned_bytes": size, "outcome": outcome, "received": got, "server_errors": errs})
+    # the same for responses that were completely received (END_STREAM buffered) before they were closed unread; the sizes add up to
+    # exactly the connection window (65535 + 2**24) so that credit that is not returned leaves nothing at all
+    for plan in ([[(1027, 16384), (1, 16383)]] if ctx.quick else [[(1027, 16384), (1, 16383)], [(1100, 16000)], [(256, 65535), (1, 65791)]]):
+        outcome, got, errs = h2b1.run_big_download(total=200000, abandon_many=plan)
+        count, size = plan[0]
+        rec.evals += 1
+        rec.distinct.add(("abandon-many-then-download", repr(plan)))
+        rec.dist[f"abandon-many-then-download:{outcome.split(':')[0]}"] += 1
+        if outcome != "ok" or got != 200000 or errs:
+            rec.fail("C12:stream-starved-by-abandoned-response", {"how": "received-in-full"}, {"abandoned": [count, size], "outcome": outcome, "received": got,
+                                                                                                 "server_errors": errs})
     return rec.finish("C12 slots lock-step + interactive HTTP/2 exploration",
                       "B1: random sequences of SETTINGS(n) / the acquire loop (compiled from the current source text) / _response_closed on a live "
                       "AsyncHTTP2Connection vs H2.Slots, state (permits, held, limit, debt) compared after every op. Exploration: 2-6 concurrent requests (with and without bodies; read, hold or abandon the response; cancel while "
